@@ -44,10 +44,14 @@ def probe_program(shape, probe, backend):
         else:
             _k, i, how = probe
             es = elem_shape(shape, i if i is not None else 0)
-            elem = abi_gen.spec(es).new_instance()
+            if how.endswith("_sub"):
+                # the value receiving the component is an instance of a user subclass of the ABI class
+                elem = abi_gen.sub_instance(es)
+            else:
+                elem = abi_gen.spec(es).new_instance()
             if how.startswith("field"):
                 comp = getattr(inst, "f%d" % i)
-            elif how == "rt":
+            elif how.startswith("rt"):
                 comp = inst[pt.Btoi(pt.Txn.application_args[1])]
             else:
                 comp = inst[i]
@@ -79,6 +83,8 @@ def probes_for(shape):
     if k in ("tuple", "ntuple"):
         for i in range(len(shape) - 1):
             out.append(("elem", i, "const"))
+            if isinstance(shape[1 + i], str):
+                out.append(("elem", i, "const_sub"))
             if k == "ntuple":
                 out.append(("elem", i, "field"))
                 if len(shape) > 2:
@@ -87,6 +93,9 @@ def probes_for(shape):
         return out
     out.append(("length",))
     out.append(("elem", None, "rt"))
+    if isinstance(shape[1], str):
+        out.append(("elem", None, "rt_sub"))
+        out.append(("elem", 1 if (k == "darr" or shape[2] > 1) else 0, "const_sub"))
     n = shape[2] if k == "sarr" else 3
     for i in range(min(n, 4) + (1 if k == "sarr" else 0)):
         out.append(("elem", i, "const"))
@@ -156,9 +165,10 @@ def check_shape(shape, out):
                     else:
                         _k, i, how = probe
                         n = len(v)
-                        idxs = [i] if how != "rt" else list(range(n)) + [n, n + 1] + [x for x in (7, 8, 15, 16) if x > n + 1]
+                        rt = how.startswith("rt")
+                        idxs = [i] if not rt else list(range(n)) + [n, n + 1] + [x for x in (7, 8, 15, 16) if x > n + 1]
                         for idx in idxs:
-                            res = run_probe(p, enc, idx if how == "rt" else None)
+                            res = run_probe(p, enc, idx if rt else None)
                             cnt["traces_validated"] = cnt.get("traces_validated", 0) + 1
                             es = elem_shape(shape, idx if shape[0] in ("tuple", "ntuple") else 0)
                             if idx < n:
